@@ -72,3 +72,21 @@ Example C09_example :
   u_raw string st = [("petType", "kitty"); ("lives", "9")] /\
   dispatch string d (fun v => Some v) st = Some 0.
 Proof. vm_compute. split; reflexivity. Qed.
+
+(** Unions with additionalProperties: the generated UnmarshalJSON decodes every key of the document that is no fixed
+    property on its own, into a fresh variable of the additional type, so the additional members are exactly the
+    document's - for values of any shape (objects with distinct member names; json.Unmarshal into a variable that already
+    holds a value keeps what the new text does not mention).  One variable shared by all keys is refuted: a key's value
+    inherits the members of the key decoded before it. *)
+Theorem C09_additional_members_decoded_on_their_own : forall (jv : Type) (residual : list (string * jobj jv)),
+  (forall kv, In kv residual -> NoDup (map fst (snd kv))) -> decode_fresh jv residual = residual.
+Proof. exact decode_fresh_exact. Qed.
+Print Assumptions C09_additional_members_decoded_on_their_own.
+
+Theorem C09_shared_decode_variable_refuted :
+  let doc := [("from", [("x", 1); ("label", 7)]); ("to", [("y", 2)]); ("origin", [])] in
+  decode_fresh nat doc = doc
+  /\ decode_shared nat [] doc = [("from", [("x", 1); ("label", 7)]); ("to", [("x", 1); ("label", 7); ("y", 2)]);
+                                  ("origin", [("x", 1); ("label", 7); ("y", 2)])].
+Proof. exact decode_shared_refuted. Qed.
+Print Assumptions C09_shared_decode_variable_refuted.
